@@ -27,13 +27,17 @@ SPEC_DIR = "survey"
 
 # cfg files per tier: <pair>_<flavour>.cfg, see spec/survey/gen_cfgs.py for how they were written
 FLAVOURS = {"quick": ["qs", "qe"], "thorough": ["qs", "qe", "ts", "te"]}
+# re-linking with additional originals (a second A / B): only these pairs have the configurations
+RELINK = {"quick": [("DC", "qr"), ("AFEM", "qr")], "thorough": [("DC", "qr"), ("AFEM", "qr"), ("DC", "tr"), ("AFEM", "tr")]}
 # negative controls: one named deviation switched on, TLC must report one of these properties as violated
 NEGATIVE = [("ATEM_dev_WaveformAliased.cfg", {"WriteThrough", "EditIsLocal"}),
             ("LLFEM_dev_LinkFromTxDropsTxId.cfg", {"TxIdKept"}),
             ("MLFEM_dev_InputTypeSetterMLFEM.cfg", {"ValidEditsAccepted"}),
             ("TIP_dev_UnitSetterTIP.cfg", {"ValidEditsAccepted"}),
             ("MLTEM_dev_LoopRadiusNoneHalfApplied.cfg", {"WriteThrough", "RefusedIsNoop"}),
-            ("TIP1_dev_TipperSingleBaseMaskedCopy.cfg", {"RefusedIsNoop", "CopyCopiesPartner"})]
+            ("TIP1_dev_TipperSingleBaseMaskedCopy.cfg", {"RefusedIsNoop", "CopyCopiesPartner"}),
+            ("DC_dev_RelinkKeepsCachedPartner.cfg", {"LinkSticks", "BothIds", "SharedEqual"}),
+            ("AFEM_dev_RelinkLeavesSharedDictionary.cfg", {"WriteThrough"})]
 
 SIGNATURES = {
     "WaveformAliased": "copy-shares-waveform-dict-with-source",
@@ -42,6 +46,8 @@ SIGNATURES = {
     "UnitSetterTIP": "unit-setter-raises-tipper",
     "LoopRadiusNoneHalfApplied": "rejected-loop-radius-none-leaves-live-metadata-changed",
     "TipperSingleBaseMaskedCopy": "masked-copy-of-tipper-receivers-fails-with-single-base-station",
+    "RelinkKeepsCachedPartner": "taken-over-partner-keeps-resolving-its-previous-partner",
+    "RelinkLeavesSharedDictionary": "former-partner-live-metadata-follows-the-new-pair",
 }
 
 CLASSES = {
@@ -91,7 +97,7 @@ def family(pair):
 class World:  # pylint: disable=too-many-instance-attributes
     """The implementation side: two workspace files, the entities created so far, action + projection."""
 
-    def __init__(self, pair, tag):
+    def __init__(self, pair, tag, n_orig=2):
         from geoh5py import Workspace
         self.pair = pair
         self.fam = family(pair)
@@ -103,6 +109,7 @@ class World:  # pylint: disable=too-many-instance-attributes
         self.ws = {1: Workspace.create(self.paths[1]), 2: None}
         self.table = []  # per id-1: dict(ws, uid, role)
         self.objs = []  # live python objects, same index
+        self.n_orig = n_orig
         self._build()
 
     # ---------------------------------------------------------------- construction of the originals
@@ -144,6 +151,28 @@ class World:  # pylint: disable=too-many-instance-attributes
         self._register(a, 1, "A")
         if b is not None:
             self._register(b, 1, "B")
+        # additional originals for re-linking (constant Extras of the spec): a second A, a second B
+        if self.n_orig >= 3:
+            self._register(self._extra("A", a), 1, "A")
+        if self.n_orig >= 4:
+            self._register(self._extra("B", b), 1, "B")
+
+    def _extra(self, role, like):
+        """A second original of the same class and geometry as `like` (shifted in y), with its own id data."""
+        import geoh5py.objects as O
+        ws = self.ws[1]
+        verts = like.vertices + np.array([0.0, 2.0, 0.0])
+        if self.pair == "DC":
+            cls = O.PotentialElectrode if role == "A" else O.CurrentElectrode
+            obj = cls.create(ws, vertices=verts, cells=np.array(like.cells, dtype="uint32"), name=role + "2")
+            if role == "A":
+                obj.ab_cell_id = np.array([1, 1, 2, 2], dtype="int32")
+            else:
+                obj.add_default_ab_cell_id()
+            return obj
+        if self.pair in LARGE_LOOP:
+            raise MachineryError("additional originals are not set up for large-loop pairs")
+        return type(like).create(ws, vertices=verts, name=role + "2")
 
     def _register(self, obj, wsi, role):
         self.table.append({"ws": wsi, "uid": obj.uid, "role": role})
@@ -177,8 +206,8 @@ class World:  # pylint: disable=too-many-instance-attributes
         act = lab["act"]
         try:
             if act == "LinkFrom":
-                s = lab["i"]
-                me, other = self.objs[s - 1], self.objs[2 - s]
+                s, o = lab["i"], lab["j"]
+                me, other = self.objs[s - 1], self.objs[o - 1]
                 setattr(me, ATTRS[self.fam][self.table[s - 1]["role"]], other)
                 return "ok"
             if act == "Edit":
@@ -468,7 +497,11 @@ class World:  # pylint: disable=too-many-instance-attributes
             out.add(s * 10 + (gs.pop() if len(gs) == 1 else 0))
         return sorted(out)
 
-    def observe(self):
+    def observe(self, lazy=False):
+        """Projection of every entity.  First pass: live metadata and the raw stored metadata of ALL entities, without
+        touching any partner getter; second pass (skipped when lazy): the getters, which fill the lazy partner caches
+        (`_receivers`, `_transmitters`, ...).  Lazy observations are used on the already verified prefix of a path so
+        that the next action runs on objects whose caches only the library itself has filled."""
         ents = []
         for k, row in enumerate(self.table):
             obj = self.objs[k]
@@ -477,13 +510,21 @@ class World:  # pylint: disable=too-many-instance-attributes
                 ents.append({"role": row["role"], "ws": wsi, "missing": True})
                 continue
             try:
-                live = self._meta(wsi, obj.metadata)
-            except Exception as exc:  # pylint: disable=broad-except
-                live = {"error": type(exc).__name__}
-            try:
                 file = self._meta(wsi, self._raw_from(self.ws[wsi].geoh5, row["uid"]))
             except Exception as exc:  # pylint: disable=broad-except
                 file = {"error": type(exc).__name__}
+            try:
+                live = self._meta(wsi, obj.metadata)
+            except Exception as exc:  # pylint: disable=broad-except
+                live = {"error": type(exc).__name__}
+            ents.append({"role": row["role"], "ws": wsi, "live": live, "file": file, "geo": self._geo(k),
+                         "wsobj": self._ws_index(obj.workspace), "lazy": True})
+        if lazy:
+            return ents
+        for k, row in enumerate(self.table):
+            obj = self.objs[k]
+            if obj is None:
+                continue
             partner = None
             if CLASSES[self.pair][1] is None:
                 ptr = 0
@@ -501,9 +542,7 @@ class World:  # pylint: disable=too-many-instance-attributes
                 refs = self._refs(k, partner)
             except Exception as exc:  # pylint: disable=broad-except
                 refs = [f"!{type(exc).__name__}"]
-            ents.append({"role": row["role"], "ws": wsi, "live": live, "file": file, "ptr": ptr, "own": own,
-                         "geo": self._geo(k), "refs": refs,
-                         "wsobj": self._ws_index(obj.workspace)})
+            ents[k].update({"ptr": ptr, "own": own, "refs": refs, "lazy": False})
         return ents
 
 
@@ -529,13 +568,15 @@ def _expand_meta(m, defpar, fam):
     return {"has": True, "pa": m["pa"], "pb": m["pb"], "tx": m["tx"] if fam == "em" else 0, "par": par}
 
 
-def norm_expected(ents, fam, defpar):
+def norm_expected(ents, fam, defpar, lazy=False):
     out = []
     for k, e in enumerate(ents):
         live = _expand_meta(e["live"], defpar, fam)
         file = live if e["file"].get("same") else _expand_meta(e["file"], defpar, fam)
-        out.append({"role": e["role"], "ws": e["ws"], "live": live, "file": file, "ptr": e["ptr"],
-                    "geo": sorted(e["geo"]), "refs": sorted(e["refs"]), "own": k + 1})
+        d = {"role": e["role"], "ws": e["ws"], "live": live, "file": file, "geo": sorted(e["geo"])}
+        if not lazy:
+            d.update({"ptr": e["ptr"], "refs": sorted(e["refs"]), "own": k + 1})
+        out.append(d)
     return out
 
 
@@ -547,8 +588,9 @@ def norm_observed(ents, fam):
             continue
         live = e["live"] if "error" in e["live"] else _norm_meta(e["live"], fam)
         file = e["file"] if "error" in e["file"] else _norm_meta(e["file"], fam)
-        d = {"role": e["role"], "ws": e["ws"], "live": live, "file": file, "ptr": e["ptr"], "geo": e["geo"],
-             "refs": e["refs"], "own": e["own"]}
+        d = {"role": e["role"], "ws": e["ws"], "live": live, "file": file, "geo": e["geo"]}
+        if not e["lazy"]:
+            d.update({"ptr": e["ptr"], "refs": e["refs"], "own": e["own"]})
         if e["wsobj"] != e["ws"]:
             d["wsobj"] = e["wsobj"]
         out.append(d)
@@ -631,14 +673,18 @@ def classify(lab, pre, exp, got, d):
 def _replay(item):  # pylint: disable=too-many-locals
     pair, cfg, init, steps, defpar = item["pair"], item["cfg"], item["init"], item["steps"], item["defpar"]
     fam = "em" if family(pair) in ("em", "TIP") else "DC"
-    stats = {"steps": 0, "acts": {}, "copies2": 0, "reopens": 0, "closed_raw_checks": 0, "cpu": time.process_time()}
+    lazy_upto = item.get("lazy_upto", 0)
+    stats = {"steps": 0, "acts": {}, "copies2": 0, "reopens": 0, "closed_raw_checks": 0, "lazy": 0,
+             "cold_edits": 0, "relinks": 0, "cpu": time.process_time()}
+    cold = False  # no partner getter was called by the harness since the last Reopen / LinkFrom
     viol = []
 
     def bad(sig, msg, upto):
         viol.append({"signature": sig, "summary": f"[{pair}/{cfg}] {msg}",
-                     "case": {"pair": pair, "cfg": cfg, "defpar": defpar, "init": init, "steps": steps[:upto + 1]}})
+                     "case": {"pair": pair, "cfg": cfg, "defpar": defpar, "init": init, "steps": steps[:upto + 1],
+                              "lazy_upto": min(lazy_upto, upto + 1)}})
 
-    world = World(pair, f"{os.getpid()}")
+    world = World(pair, f"{os.getpid()}", n_orig=item.get("n_orig", len(init["ents"])))
     try:
         pre = norm_expected(init["ents"], fam, defpar)
         got = norm_observed(world.observe(), fam)
@@ -648,12 +694,26 @@ def _replay(item):  # pylint: disable=too-many-locals
             return viol, stats
         for n, st in enumerate(steps):
             lab, exp_state = st["last"], st["expect"]
+            # steps of the prefix were compared in full by the path that covers them: here only metadata (live + raw)
+            # and geometry are compared and NO partner getter is called, so that the next action meets caches in the
+            # state the library left them in.  Edges with a named deviation are always compared in full.
+            lazy = n < lazy_upto and not lab.get("alt")
+            if lab["act"] == "LinkFrom" and _names_other(pre, lab):
+                stats["relinks"] += 1
+            if lab["act"] == "Edit" and cold:
+                stats["cold_edits"] += 1
             out = world.do(lab)
             stats["steps"] += 1
             stats["acts"][lab["act"]] = stats["acts"].get(lab["act"], 0) + 1
             out_kind = out.split(":")[0]
-            exp = norm_expected(exp_state["ents"], fam, defpar)
-            got = norm_observed(world.observe(), fam)
+            exp = norm_expected(exp_state["ents"], fam, defpar, lazy)
+            got = norm_observed(world.observe(lazy), fam)
+            if lazy:
+                stats["lazy"] += 1
+                if lab["act"] in ("Reopen", "LinkFrom"):
+                    cold = True
+            else:
+                cold = False
             if lab["act"] == "Reopen" and out_kind == "ok":
                 stats["reopens"] += 1
                 # the files were read with plain h5py while closed: must equal the expected file metadata
@@ -666,12 +726,15 @@ def _replay(item):  # pylint: disable=too-many-locals
             if not d:
                 if lab["act"] == "Copy" and len(exp) == len(pre) + 2:
                     stats["copies2"] += 1
-                pre = exp
+                pre = norm_expected(exp_state["ents"], fam, defpar)
                 continue
             hist = " ; ".join(_show(s["last"]) for s in steps[:n + 1])
             if lab.get("alt"):
-                alt = norm_expected(lab["alt"], fam, defpar)
-                if out_kind == lab.get("altout", lab["out"]) and not diff(alt, got):
+                # the own-role getter answers from a lazy cache too (filled or not depending on what ran before): it is
+                # not part of the deviation's prediction
+                alt = [{k: v for k, v in e.items() if k != "own"} for e in norm_expected(lab["alt"], fam, defpar, lazy)]
+                got_alt = [{k: v for k, v in e.items() if k != "own"} for e in got]
+                if out_kind == lab.get("altout", lab["out"]) and not diff(alt, got_alt):
                     sig = SIGNATURES[lab["dev"]]
                     bad(sig, f"after {hist}: the implementation does exactly what the named deviation {lab['dev']} "
                              f"of the specification predicts instead of the specified result; differences from the "
@@ -690,10 +753,21 @@ def _replay(item):  # pylint: disable=too-many-locals
     return viol, stats
 
 
+def _names_other(pre, lab):
+    """The link takes an entity over: s or o already records somebody else as its partner."""
+    s, o = lab["i"], lab["j"]
+    def partner(k):
+        m = pre[k - 1]["live"]
+        if not m.get("has"):
+            return 0
+        return m["pb"] if pre[k - 1]["role"] == "A" else m["pa"]
+    return partner(s) not in (0, o) or partner(o) not in (0, s)
+
+
 def _show(lab):
     a = lab["act"]
     if a == "LinkFrom":
-        return f"LinkFrom({lab['i']})"
+        return f"LinkFrom({lab['i']}->{lab.get('j', 3 - lab['i'])})"
     if a == "Edit":
         return f"Edit({lab['i']},{lab['op']}={lab['val']})"
     if a == "Copy":
@@ -779,11 +853,14 @@ def cover(g, init, rng=None, max_len=14):
         clean.sort(key=lambda i: -dist_a[edges[i][0]])
         order = clean + [i for i in order if dev[i]]
     paths = []
+    prefix_len = []
     blocked = 0
     for i in order:
         if covered[i]:
             continue
-        p = prefix(edges[i][0]) + [i]
+        pre_edges = prefix(edges[i][0])
+        prefix_len.append(len(pre_edges))
+        p = pre_edges + [i]
         covered[i] = True
         cur = edges[i][1]
         while not dev[i] and len(p) < max_len:
@@ -796,24 +873,26 @@ def cover(g, init, rng=None, max_len=14):
             cur = edges[j][1]
         blocked += sum(1 for k, j in enumerate(p[:-1]) if dev[j])
         paths.append(p)
-    return paths, sum(covered), unreachable, blocked
+    return paths, prefix_len, sum(covered), unreachable, blocked
 
 
 def _items(pair, cfg, g, init, defpar, seed):
     import random
-    paths, covered, unreachable, blocked = cover(g, init, rng=random.Random(seed) if seed else None)
+    paths, prefix_len, covered, unreachable, blocked = cover(g, init, rng=random.Random(seed) if seed else None)
     if unreachable or covered != len(g.edges):
         raise MachineryError(f"{cfg}: path cover misses edges ({covered}/{len(g.edges)}, {len(unreachable)} unreachable)")
     items = []
-    for p in paths:
+    for p, npre in zip(paths, prefix_len):
         steps = [{"last": g.edges[i][2], "expect": g.states[g.edges[i][1]]} for i in p]
-        items.append({"pair": pair, "cfg": cfg, "defpar": defpar, "init": g.states[init[0]], "steps": steps})
+        items.append({"pair": pair, "cfg": cfg, "defpar": defpar, "init": g.states[init[0]], "steps": steps,
+                      "lazy_upto": npre})
     return items, blocked
 
 
 def run(tier, seed):  # pylint: disable=too-many-locals,too-many-statements
     t0 = time.time()
     cfgs = [(pair, f"{pair}_{fl}.cfg") for pair in PAIRS for fl in FLAVOURS[tier]]
+    cfgs += [(pair, f"{pair}_{fl}.cfg") for pair, fl in RELINK[tier]]
     threads = max(1, min(6, int(os.environ.get("VERIF_PROCS", "16")) // 2))
     with ThreadPoolExecutor(threads) as ex:
         neg_futures = [ex.submit(tlc.run_tlc, SPEC_DIR, MODULE, cfg, workers=1, heap="2g", keep_lines=False,
@@ -842,7 +921,7 @@ def run(tier, seed):  # pylint: disable=too-many-locals,too-many-statements
     replay_wall = time.time() - t1
     viol = []
     acts = {}
-    steps = copies2 = reopens = closed_checks = planned = 0
+    steps = copies2 = reopens = closed_checks = planned = lazy_steps = cold_edits = relinks = 0
     by_pair = {}
     for k, (v, st) in zip(order, out):
         viol += v
@@ -851,6 +930,9 @@ def run(tier, seed):  # pylint: disable=too-many-locals,too-many-statements
         copies2 += st["copies2"]
         reopens += st["reopens"]
         closed_checks += st["closed_raw_checks"]
+        lazy_steps += st["lazy"]
+        cold_edits += st["cold_edits"]
+        relinks += st["relinks"]
         for a, c in st["acts"].items():
             acts[a] = acts.get(a, 0) + c
             bp = by_pair.setdefault(items[k]["pair"], {})
@@ -859,8 +941,9 @@ def run(tier, seed):  # pylint: disable=too-many-locals,too-many-statements
         need = {"Copy", "Reopen"} | ({"LinkFrom"} if pair != "MT" else set()) | ({"Edit"} if pair != "DC" else set())
         if not need <= set(by_pair.get(pair, {})):
             raise MachineryError(f"vacuous: {pair} never exercised {need - set(by_pair.get(pair, {}))}")
-    if copies2 == 0 or reopens == 0:
-        raise MachineryError("vacuous: no copy of a linked pair / no re-open was replayed to the end")
+    if copies2 == 0 or reopens == 0 or cold_edits == 0 or relinks == 0:
+        raise MachineryError("vacuous: no copy of a linked pair / re-open / edit on cold partner caches / take-over link "
+                             "was replayed")
     negs = []
     for (cfg, expected), res in zip(NEGATIVE, neg_results):
         if not set(res.violated) & expected:
@@ -877,6 +960,8 @@ def run(tier, seed):  # pylint: disable=too-many-locals,too-many-statements
             "actions_after_a_deviation_edge_on_the_only_route": blocked_total,
             "actions_by_kind": acts, "actions_by_pair": by_pair,
             "linked_pair_copies_checked": copies2, "reopens_checked": reopens,
+            "prefix_actions_compared_without_calling_partner_getters": lazy_steps,
+            "edits_applied_on_cold_partner_caches": cold_edits, "take_over_links_replayed": relinks,
             "raw_metadata_reads_while_closed": closed_checks,
             "class_pairs": len(PAIRS), "configs": per_cfg,
             "samples": [{"pair": sample["pair"], "cfg": sample["cfg"],
@@ -889,7 +974,9 @@ def run(tier, seed):  # pylint: disable=too-many-locals,too-many-statements
                     "and the action properties LinkSticks, ReopenResolves, CopyCopiesPartner, EditIsLocal, RefusedIsNoop, ValidEditsAccepted, "
                     "and exports the state graph; every edge is replayed (path cover) on survey objects in .geoh5 files "
                     "and after every action live metadata, raw Metadata JSON (plain h5py), partner getters, geometry "
-                    "and loop references of every entity are compared with the state TLC computed; a replay stops at "
+                    "and loop references of every entity are compared with the state TLC computed; on the already verified "
+                    "prefix of a path only live and raw metadata and geometry are compared and no partner getter is called, "
+                    "so that the following action meets the partner caches as the library left them; a replay stops at "
                     "the first difference",
         },
         "assumptions": [
